@@ -1773,7 +1773,7 @@ def C04(tier, seed):
         # flush() under concurrency: 2-8 threads keep logging while the application thread calls flush() again and again and
         # reads the file each time it has returned (recorded event lists of free-running executions, no rotation)
         cscens = []
-        for i in range(24 if tier == "quick" else 240):
+        for i in range(24 if tier == "quick" else 120):
             mode = ["buf", "bufflush", "direct", "buf"][i % 4]
             c = {"mode": mode, "naming": "Num", "rot": False, "crlf": False, "bg": False}
             if mode != "direct":
@@ -1781,7 +1781,7 @@ def C04(tier, seed):
             if mode == "bufflush":
                 c["flush_ms"] = rng.choice([1, 1000])
             cscens.append({"sc": len(cscens) + 1, "kind": "stress", "out": "file", "cfg": c, "threads": rng.choice([2, 4, 8]),
-                           "per": rng.choice([100, 300]) if tier == "quick" else rng.choice([300, 1000]), "rawmix": False,
+                           "per": rng.choice([100, 300]) if tier == "quick" else rng.choice([300, 600]), "rawmix": False,
                            "failfmt": False, "trace": True, "appflush": True, "lens": [9, 12, 33, 64, 100],
                            "noise": rng.randrange(1, 2 ** 31), "origin": "stress:appflush"})
         resc = C.run_sharded(pid, "MonC04c", cscens, wd, sub="conc", nshards=6)
